@@ -243,19 +243,33 @@ impl<'a> NinjaBuildBuilder<'a> {
     }
 }
 
+/// Escape a path for the path lists of a build statement, where ninja splits at
+/// blanks and colons (same as `escape_path()` of ninja's own `ninja_syntax.py`).
+fn escape_path(path: &str) -> Cow<'_, str> {
+    if path.contains([' ', ':']) {
+        Cow::from(
+            path.replace("$ ", "$$ ")
+                .replace(' ', "$ ")
+                .replace(':', "$:"),
+        )
+    } else {
+        Cow::from(path)
+    }
+}
+
 impl fmt::Display for NinjaBuild<'_> {
     fn fmt(&self, f: &mut fmt::Formatter) -> fmt::Result {
         write!(f, "build")?;
 
         for out in &self.outs {
-            write!(f, " {out}")?;
+            write!(f, " {}", escape_path(out.as_str()))?;
         }
 
         write!(f, ": $\n    {}", self.rule)?;
 
         if let Some(inputs) = &self.inputs {
             for path in inputs {
-                write!(f, " $\n    {path}")?;
+                write!(f, " $\n    {}", escape_path(path.as_str()))?;
             }
         }
 
@@ -263,7 +277,7 @@ impl fmt::Display for NinjaBuild<'_> {
             write!(f, " $\n    |")?;
             if let Some(list) = &self.deps {
                 for entry in list {
-                    write!(f, " $\n    {entry}")?;
+                    write!(f, " $\n    {}", escape_path(entry.as_str()))?;
                 }
             }
             if self.always {
